@@ -1,6 +1,6 @@
 #!/usr/bin/env python3
 """bin/seeded_meta.py: writes seeded/<id>/meta.json for the second and third wave of seeded changes
-(<Cxx>-2A/2B, <Cxx>-3A/3B, <Cxx>-4A/4B) from seeded/wave2_meta.json, seeded/wave3_meta.json (what each change is and what it needs,
+(<Cxx>-2A/2B ... <Cxx>-5A/5B) from seeded/wave2_meta.json, seeded/wave3_meta.json (what each change is and what it needs,
 condensed from the sub-agents' READMEs) and from each directory's result.txt (bin/seeded_matrix)."""
 import json, os, sys
 
@@ -27,10 +27,18 @@ ALSO = {
     'C09-4A': 'also C33 rc=1', 'C09-4B': 'also C33 rc=1',
     'C07-4A': 'also C04 rc=1 build-frame-depends-on-earlier-builds',
     'C11-4A': 'also C12 rc=1 rlp-round-trip-changes-set',
+    'C13-5B': 'the C11-3B change again (Builder() without copy): C12 rc=1 built-set-changes-when-a-builder-is-edited, C11 rc=1',
+    'C09-5B': 'the C11-3B change again (Builder() without copy): C12 rc=1 built-set-changes-when-a-builder-is-edited',
+    'C33-5B': 'a change of kvdb/flushable (empty value flushed as a deletion): C22 rc=1, C23 rc=1; the C33 harness never flushes its epoch databases',
+    'C03-5B': 'C05 rc=1 forkless-cause-differs-from-definition, C06 rc=1 merged-clock-differs-from-definition (the fork flag is wrong in the index itself)',
+    'C23-5A': 'C24 rc=1 table-differs-from-prefix-view-model (iterations interleaved with point reads through a table whose prefix slice has spare capacity)',
+    'C02-5A': 'NOT CAUGHT by any quick check: needs two consecutive Atropoi with falling Lamport time; counter blocks_whose_atropos_lamport_is_below_the_previous_one stays 0 in the campaigns (see DESIGN 11c)',
+    'C02-5B': 'NOT CAUGHT by any quick check: needs a cheater whose two branches are seen separately by two consecutive Atropoi, neither detecting the fork (see DESIGN 11c)',
+    'C21-5B': 'NOT CAUGHT: needs a negative threshold, excluded by the assumption of the check (see DESIGN 11c)',
 }
 
 n = 0
-for wave, src in (('2', 'wave2_meta.json'), ('3', 'wave3_meta.json'), ('4', 'wave4_meta.json')):
+for wave, src in (('2', 'wave2_meta.json'), ('3', 'wave3_meta.json'), ('4', 'wave4_meta.json'), ('5', 'wave5_meta.json')):
     M = json.load(open(os.path.join(ROOT, src)))
     for k, v in sorted(M.items()):
         d = os.path.join(ROOT, k)
@@ -40,7 +48,7 @@ for wave, src in (('2', 'wave2_meta.json'), ('3', 'wave3_meta.json'), ('4', 'wav
         res = open(os.path.join(d, 'result.txt')).read().strip() if os.path.exists(os.path.join(d, 'result.txt')) else ''
         dd = open(os.path.join(d, 'demo_dir.txt')).read().strip()
         mroot = '/tmp/mut' + wave
-        base = BASE if wave != '4' else '621f18e'
+        base = BASE if wave in '23' else '621f18e'
         meta = {
             'seeded_id': k, 'breaks_property': k.split('-')[0], 'wave': int(wave),
             'change': v['change'], 'needs_to_manifest': v['needs'],
